@@ -25,6 +25,8 @@ What is extracted (every piece is small decision / integer / table logic of the 
   * fmt::BufferedFile::close() and ~BufferedFile() (src/posix.cc): statement-by-statement state transformers over
     (file_ set?, stream live?, number of fclose calls, fclose on a dead stream?, threw?, reported?) with fclose's return
     value as a parameter
+  * SolverAppOptionParser::Parse (src/solver.cc): statement by statement, as a function of the command line, of what
+    ParseOptions returns / consumes, and of the (-AMPL flag, wantsol, usage shown, argv position) state
   * skeletons: every call / construction / branch condition / throw / return of the functions between main and the
     solver's answer, unfiltered (change detector)
 
@@ -66,7 +68,8 @@ def prefetch(repo, work):
             ('c09_hs.cc', hs, 'mp::internal::AppSolutionHandlerImpl'),
             ('c09_mm.cc', mm, 'ReadNLModel'), ('c09_mm.cc', mm, 'mp::internal::SolverNLHandlerImpl'), ('c09_mm.cc', mm, 'RunFromNLFile'),
             ('c09_sol.cc', '#include "mp/sol.h"\n', 'mp::WriteSolFile'),
-            ('c09_posix.cc', '#include "posix.cc"\n', 'fmt::BufferedFile::close'), ('c09_posix.cc', '#include "posix.cc"\n', 'fmt::BufferedFile::~BufferedFile')]
+            ('c09_posix.cc', '#include "posix.cc"\n', 'fmt::BufferedFile::close'), ('c09_posix.cc', '#include "posix.cc"\n', 'fmt::BufferedFile::~BufferedFile'),
+            ('c09_solver.cc', '#include "solver.cc"\n', 'mp::internal::SolverAppOptionParser::Parse'), ('c09_solver.cc', '#include "solver.cc"\n', 'mp::BasicSolver::set_ampl_flag')]
     for n, t, _ in jobs:                      # write the TUs once, before the threads start
         tu = os.path.join(work, n)
         if not os.path.exists(tu) or open(tu).read() != t:
@@ -545,6 +548,160 @@ def suffix_ladder(repo, work):
             raise TranslateError('ReportSuffixes: a handler rethrows / returns: not modelled')
         hs.append(handler_type(c)[0])
     return calls, hs
+
+
+# ------------------------------------------------------------------------------------------ SolverAppOptionParser::Parse
+AP_PRELUDE = '''/-- What `SolverAppOptionParser::Parse` changes: how far `argv` has been advanced, `solver_.set_ampl_flag()`,
+`solver_.set_wantsol(n)`, `ShowUsage()`. -/
+structure AppParse where
+  i : Nat
+  ampl : Bool
+  wantsol : Nat
+  usage : Bool
+deriving DecidableEq, Repr
+'''
+
+
+class AP:
+    """statement-by-statement translation; argv is a position `s.i` in the null-terminated array `argv : List String`
+    (`argv[s.i]?` = `*argv`), `ParseOptions(argv, options_)` advances it by `consumed` and returns `optIn`"""
+    def __init__(self):
+        self.n = 0
+        self.ptr = set()      # local `const char*` variables (Option String)
+        self.chr = set()      # local char / int variables (Nat)
+
+    def fresh(self):
+        self.n += 1
+        return 's%d' % self.n
+
+    def is_argv(self, n):
+        n = strip(n)
+        return n.get('kind') == 'DeclRefExpr' and (n.get('referencedDecl') or {}).get('name') == 'argv'
+
+    def ptr_ex(self, n, s):
+        """Option String"""
+        n = strip(n)
+        k = n.get('kind')
+        if k == 'UnaryOperator' and n.get('opcode') == '*' and self.is_argv(n['inner'][0]):
+            return 'argv[%s.i]?' % s
+        if k == 'DeclRefExpr' and (n.get('referencedDecl') or {}).get('name') in self.ptr:
+            return n['referencedDecl']['name']
+        if k == 'IntegerLiteral' and n.get('value') == '0':
+            return '(none : Option String)'
+        raise TranslateError('Parse: pointer expression %s not supported' % k)
+
+    def nat_ex(self, n):
+        n = strip(n)
+        k = n.get('kind')
+        if k == 'DeclRefExpr' and (n.get('referencedDecl') or {}).get('name') in self.chr:
+            return n['referencedDecl']['name']
+        if k in ('CharacterLiteral', 'IntegerLiteral'):
+            return '(%d : Nat)' % int(n['value'])
+        raise TranslateError('Parse: integer expression %s not supported' % k)
+
+    def cond(self, n, s):
+        n = strip(n)
+        k = n.get('kind')
+        if k == 'BinaryOperator' and n.get('opcode') in ('&&', '||'):
+            return '(%s %s %s)' % (self.cond(n['inner'][0], s), n['opcode'], self.cond(n['inner'][1], s))
+        if k == 'UnaryOperator' and n.get('opcode') == '!':
+            return '(!%s)' % self.cond(n['inner'][0], s)
+        if k == 'BinaryOperator' and n.get('opcode') in ('==', '!='):
+            a, b = strip(n['inner'][0]), strip(n['inner'][1])
+            if a.get('kind') == 'CallExpr' and call_names(a)[:1] == ['strcmp'] and b.get('kind') == 'IntegerLiteral' and b.get('value') == '0':
+                lit = strip(a['inner'][2])
+                if lit.get('kind') != 'StringLiteral':
+                    raise TranslateError('Parse: strcmp with a non-literal')
+                return '(%s %s some %s)' % (self.ptr_ex(a['inner'][1], s), n['opcode'], lit['value'])
+            return '(%s %s %s)' % (self.nat_ex(a), n['opcode'], self.nat_ex(b))
+        try:
+            return '(%s).isSome' % self.ptr_ex(n, s)
+        except TranslateError:
+            return '(%s != 0)' % self.nat_ex(n)
+
+    def stmts(self, L, s):
+        """-> lean term of type Option String × AppParse"""
+        if not L:
+            raise TranslateError('Parse: control reaches the end of the function')
+        st, rest = L[0], L[1:]
+        k = st.get('kind')
+        if k == 'CompoundStmt':
+            return self.stmts(st.get('inner', []) + rest, s)
+        if k == 'ReturnStmt':
+            return '(%s, %s)' % (self.ptr_ex(st['inner'][0], s), s)
+        eff = self.effect(st, s)
+        if eff is not None:
+            t = self.fresh()
+            return '(let %s : AppParse := %s; %s)' % (t, eff, self.stmts(rest, t))
+        if k == 'DeclStmt':
+            vs = [v for v in st['inner'] if v.get('kind') == 'VarDecl']
+            if len(vs) != 1 or not vs[0].get('inner'):
+                raise TranslateError('Parse: declaration not supported')
+            v, init = vs[0], strip(vs[0]['inner'][0])
+            if qt(v) == 'char' and init.get('kind') == 'CallExpr' and call_names(init)[:1] == ['ParseOptions'] and self.is_argv(init['inner'][1]):
+                self.chr.add(v['name'])
+                t = self.fresh()
+                return '(let %s : AppParse := { %s with i := %s.i + consumed }; let %s : Nat := optIn; %s)' % (t, s, s, v['name'], self.stmts(rest, t))
+            if qt(v) == 'const char *':
+                self.ptr.add(v['name'])
+                return '(let %s : Option String := %s; %s)' % (v['name'], self.ptr_ex(init, s), self.stmts(rest, s))
+            raise TranslateError('Parse: declaration of %s not supported' % qt(v))
+        if k == 'IfStmt':
+            inner = st['inner']
+            if len(inner) != 2:
+                raise TranslateError('Parse: if/else not supported')
+            c = self.cond(inner[0], s)
+            if find_all(inner[1], lambda m: m.get('kind') == 'ReturnStmt'):
+                return '(if %s then %s else %s)' % (c, self.stmts([inner[1]], s), self.stmts(rest, s))
+            t = self.fresh()
+            return '(let %s : AppParse := (if %s then %s else %s); %s)' % (t, c, self.block(inner[1], s), s, self.stmts(rest, t))
+        raise TranslateError('Parse: statement %s not supported' % k)
+
+    def effect(self, st, s):
+        k = st.get('kind')
+        if k == 'UnaryOperator' and st.get('opcode') == '++' and self.is_argv(st['inner'][0]):
+            return '{ %s with i := %s.i + 1 }' % (s, s)
+        if k == 'CXXMemberCallExpr':
+            nm, obj = member_call_name(st)
+            args = [strip(a) for a in st['inner'][1:]]
+            if nm == 'ShowUsage' and not args:
+                return '{ %s with usage := true }' % s
+            on_solver = obj is not None and obj.get('kind') == 'MemberExpr' and obj.get('name') == 'solver_'
+            if on_solver and nm == 'set_ampl_flag' and all(a.get('kind') == 'CXXDefaultArgExpr' for a in args):
+                return '{ %s with ampl := true }' % s
+            if on_solver and nm == 'set_wantsol' and len(args) == 1 and args[0].get('kind') == 'IntegerLiteral':
+                return '{ %s with wantsol := %s }' % (s, args[0]['value'])
+            raise TranslateError('Parse: member call %s not supported' % nm)
+        return None
+
+    def block(self, st, s):
+        """a block without return -> AppParse"""
+        L = st.get('inner', []) if st.get('kind') == 'CompoundStmt' else [st]
+        for x in L:
+            e = self.effect(x, s)
+            if e is None:
+                raise TranslateError('Parse: statement %s in a block not supported' % x.get('kind'))
+            s = '(%s)' % e
+        return s
+
+
+def app_parse(repo, work):
+    docs = clang(repo, work, 'c09_solver.cc', '#include "solver.cc"\n', 'mp::internal::SolverAppOptionParser::Parse')
+    d = [x for x in docs if x.get('kind') == 'CXXMethodDecl' and x.get('name') == 'Parse' and body_of(x) is not None]
+    if len(d) != 1:
+        raise TranslateError('SolverAppOptionParser::Parse: expected one definition, found %d' % len(d))
+    # set_ampl_flag's default argument must be `true`
+    dd = clang(repo, work, 'c09_solver.cc', '#include "solver.cc"\n', 'mp::BasicSolver::set_ampl_flag')
+    dflt = []
+    for x in dd:
+        dflt += find_all(x, lambda n: n.get('kind') == 'CXXBoolLiteralExpr')
+    if not dflt or not all(b.get('value') is True for b in dflt[:1]):
+        raise TranslateError('BasicSolver::set_ampl_flag: default argument is not `true`')
+    return (AP_PRELUDE + '\n/-- SolverAppOptionParser::Parse (src/solver.cc), statement by statement.  `argv`: the command line (a position past its\n'
+            'end is the terminating null pointer), `s.i`: where `argv` points; `ParseOptions(argv, options_)` advances it by\n'
+            '`consumed` and returns `optIn` (0: all flags processed, 45 = \'-\': `--`, else the flag that ends the run). -/\n'
+            'def solverAppParse (argv : List String) (optIn consumed : Nat) (s : AppParse) : Option String × AppParse :=\n  '
+            + AP().stmts(body_of(d[0])['inner'], 's') + '\n')
 
 
 # ------------------------------------------------------------------------------------------ pieces
@@ -1084,6 +1241,8 @@ def generate(repo, work):
     L.append('')
     L.append('/-! ## fmt::BufferedFile::close and the destructor (src/posix.cc), as state transformers -/')
     L.append(buffered_file(repo, work))
+    L.append('/-! ## SolverAppOptionParser::Parse (src/solver.cc), as a function of the command line -/')
+    L.append(app_parse(repo, work))
     L.append('/-! ## skeletons: every call / construction / branch / throw / return of the functions between `main`')
     L.append('and the solver\'s answer, unfiltered, in evaluation order (arguments before the call; `lambda#i` = the')
     L.append('i-th lambda expression of the function, its body is `<function>_lambda<i>`) -/')
